@@ -144,6 +144,10 @@ def gen_cases(rng, tier):
         cases.append({"in": [k & 1, [1], [1, 2], [[0, 0, 0], [6, 1, 3], [7, 0, 0]] + [list(v) for v in seq]
                              + [[9, 0, 0], [0, 0, 0], [1, 1, 0]]], "kind": "savepoint", "model": False})
     for k, v in enumerate(VARIANTS):
+        # an object added in the transaction switches its primary key, then the transaction is rolled back
+        cases.append({"in": [k & 1, [1], [2], [[5, 0, 0], [7, 0, 0], [6, 0, 3], [7, 0, 0], list(v), [9, 0, 0],
+                                               [0, 0, 0], [1, 1, 0], [1, 3, 0]]], "kind": "new-pk-switch"})
+    for k, v in enumerate(VARIANTS):
         # eager_defaults mapping, primary-key switch: oracle only
         cases.append({"in": [0, [1], [2], [[5, 0, 0], [8, 0, 0], [6, 0, 3], [7, 0, 0], list(v), [1, 3, 0], [0, 0, 0]]],
                       "kind": "eager", "eager": 1, "model": False})
@@ -485,9 +489,10 @@ LEVEL_TEXT = (
     "another object, no unattached state was re-mapped by a snapshot restore, no row of a mapped object vanished, "
     "delete() was never given a was-deleted state) every persistent object is the mapped one, everything mapped is "
     "attached and two persistent objects never share an identity key; a query returns, row by row, the object mapped "
-    "under (pk, token); get of a present unexpired object returns it, emits no SQL and changes nothing.  Four concrete "
+    "under (pk, token); get of a present unexpired object returns it, emits no SQL and changes nothing.  Three concrete "
     "histories outside the guard refute the unguarded reading (they reproduce on the implementation and are listed as "
-    "known findings).  Tie to the code: pinned anchors and model/implementation correspondence on histories."
+    "known findings); two former findings (get() returning the pre-autoflush instance, SAVEPOINT release losing the "
+    "original key) are repaired in /repo 69ec57b / f8f802f and kept as witnesses.  Tie to the code: pinned anchors and model/implementation correspondence on histories."
 )
 LEVEL_NOTE = (
     "partial: one Session; relationship loads, SAVEPOINTs, weak-reference collection of unreferenced objects, composite "
